@@ -5,8 +5,8 @@ package main
 // The wallet is started for real (WalletManager.Start over a real blockchain.Blockchain built on the
 // WEnv chain database: NtfnsHandler.Start catch-up, initTaskChan, `go handle`, `go worker`) and stopped
 // for real (WalletManager.Stop: UnregisterListener, close(quit), quitWg.Wait, CloseDB). The wallet
-// database handed to the manager is wrapped by gateDB, whose BeginTx / BeginReadTx / Commit are the
-// yield points: a gate can hold the k-th such call made from the worker goroutine or from the follower
+// database handed to the manager is wrapped by protoGateDB, whose BeginTx / BeginReadTx / Commit are the
+// yield points: a protoGate can hold the k-th such call made from the worker goroutine or from the follower
 // goroutine (the role is read off the call stack), which places the stop request exactly relative to the
 // database steps and hand-shakes of a running import / removal. No hook in /repo is needed.
 //
@@ -54,7 +54,7 @@ func init() {
 
 // ---------------------------------------------------------------- gate
 
-func callerRole() string {
+func protoCallerRole() string {
 	pcs := make([]uintptr, 64)
 	n := runtime.Callers(3, pcs)
 	frames := runtime.CallersFrames(pcs[:n])
@@ -72,7 +72,7 @@ func callerRole() string {
 	}
 }
 
-type gate struct {
+type protoGate struct {
 	mu      sync.Mutex
 	armed   bool
 	role    string
@@ -83,7 +83,7 @@ type gate struct {
 	release chan struct{}
 }
 
-func (g *gate) arm(role, kind string, k int) {
+func (g *protoGate) arm(role, kind string, k int) {
 	g.mu.Lock()
 	g.armed, g.role, g.kind, g.k, g.count = true, role, kind, k, 0
 	g.held = make(chan struct{})
@@ -92,7 +92,7 @@ func (g *gate) arm(role, kind string, k int) {
 }
 
 // open releases a held goroutine (if any) and disarms.
-func (g *gate) open() {
+func (g *protoGate) open() {
 	g.mu.Lock()
 	g.armed = false
 	if g.release != nil {
@@ -105,7 +105,7 @@ func (g *gate) open() {
 	g.mu.Unlock()
 }
 
-func (g *gate) waitHeld(d time.Duration) bool {
+func (g *protoGate) waitHeld(d time.Duration) bool {
 	g.mu.Lock()
 	h := g.held
 	g.mu.Unlock()
@@ -120,14 +120,14 @@ func (g *gate) waitHeld(d time.Duration) bool {
 	}
 }
 
-func (g *gate) point(kind string) {
+func (g *protoGate) point(kind string) {
 	g.mu.Lock()
 	if !g.armed || kind != g.kind {
 		g.mu.Unlock()
 		return
 	}
 	g.mu.Unlock()
-	role := callerRole()
+	role := protoCallerRole()
 	g.mu.Lock()
 	if !g.armed || role != g.role {
 		g.mu.Unlock()
@@ -145,31 +145,31 @@ func (g *gate) point(kind string) {
 	<-rel
 }
 
-type gateDB struct {
+type protoGateDB struct {
 	inner mwdb.DB
-	g     *gate
+	g     *protoGate
 }
 
-func (d *gateDB) Close() error { return d.inner.Close() }
-func (d *gateDB) BeginTx() (mwdb.DBTransaction, error) {
+func (d *protoGateDB) Close() error { return d.inner.Close() }
+func (d *protoGateDB) BeginTx() (mwdb.DBTransaction, error) {
 	d.g.point("begin")
 	tx, err := d.inner.BeginTx()
 	if err != nil {
 		return nil, err
 	}
-	return &gateTx{DBTransaction: tx, g: d.g}, nil
+	return &protoGateTx{DBTransaction: tx, g: d.g}, nil
 }
-func (d *gateDB) BeginReadTx() (mwdb.ReadTransaction, error) {
+func (d *protoGateDB) BeginReadTx() (mwdb.ReadTransaction, error) {
 	d.g.point("beginread")
 	return d.inner.BeginReadTx()
 }
 
-type gateTx struct {
+type protoGateTx struct {
 	mwdb.DBTransaction
-	g *gate
+	g *protoGate
 }
 
-func (t *gateTx) Commit() error {
+func (t *protoGateTx) Commit() error {
 	t.g.point("commit")
 	return t.DBTransaction.Commit()
 }
@@ -178,7 +178,7 @@ func (t *gateTx) Commit() error {
 
 type protoExec struct {
 	e       *WEnv
-	g       *gate
+	g       *protoGate
 	started bool
 	ext     map[string]string // name -> mnemonic
 	nbc     int
@@ -188,10 +188,10 @@ type protoExec struct {
 
 func (x *protoExec) env() *WEnv {
 	if x.e == nil {
-		g := &gate{}
+		g := &protoGate{}
 		x.g = g
-		x.e = NewWEnvWith(func(e *WEnv) {
-			e.wrapDB = func(d mwdb.DB) mwdb.DB { return &gateDB{inner: d, g: g} }
+		x.e = newWEnvWrapped(func(e *WEnv) {
+			e.wrapDB = func(d mwdb.DB) mwdb.DB { return &protoGateDB{inner: d, g: g} }
 		})
 		x.ext = map[string]string{}
 	}
@@ -378,7 +378,7 @@ func (x *protoExec) stop() string {
 	return x.stopWithWatchdog(nil)
 }
 
-const settle = 40 * time.Millisecond
+const protoSettle = 40 * time.Millisecond
 
 func (x *protoExec) issue(task, who string) string {
 	e := x.e
@@ -459,7 +459,7 @@ func (x *protoExec) stopAt(task, who, place string) string {
 			return r
 		}
 		return x.stopWithWatchdog(func() {
-			time.Sleep(settle) // quit is closed, the follower (if it selects on quit) has returned
+			time.Sleep(protoSettle) // quit is closed, the follower (if it selects on quit) has returned
 			x.g.open()
 		})
 	case (len(p) == 2 && p[0] == "handler" && p[1] == "begin") || (len(p) == 2 && p[0] == "blocks"):
@@ -491,9 +491,9 @@ func (x *protoExec) stopAt(task, who, place string) string {
 			x.g.open()
 			return r
 		}
-		time.Sleep(settle) // the worker has taken the task and stands at suspend()
+		time.Sleep(protoSettle) // the worker has taken the task and stands at suspend()
 		return x.stopWithWatchdog(func() {
-			time.Sleep(settle)
+			time.Sleep(protoSettle)
 			x.g.open()
 		})
 	}
@@ -511,7 +511,7 @@ func (x *protoExec) raceStart(who string) string {
 		x.g.open()
 		return r
 	}
-	x.g.waitHeld(settle)
+	x.g.waitHeld(protoSettle)
 	res := "accepted"
 	func() {
 		defer func() {
